@@ -263,7 +263,21 @@ def child_main(batch, budget, out_path):
         fn = D[name]
         is_update = name.startswith('Update.parse') and 'prefix' not in name and 'attributes' not in name
         n = nv = nto = 0
-        for data in inputs_of(spec, 0):
+        if spec[0] == 'mutacc':
+            base = bytes.fromhex(spec[1])
+            kind, v, _ = guarded(fn, base, budget)
+            ok = kind == 'value' and v is not None and \
+                not (isinstance(v, (list, dict, bytes, str, tuple)) and len(v) == 0) and \
+                not (is_update and isinstance(v, dict) and v.get('sub_error'))
+            if kind == 'timeout':
+                res['timeouts'].append([name, base.hex(), budget])
+            if not ok:
+                continue
+            res['mutated'] = res.get('mutated', 0) + 1
+            stream = list(inputs_of(('mut1', spec[1], spec[2]), 0)) + list(inputs_of(('mutlen', spec[1]), 0))
+        else:
+            stream = inputs_of(spec, 0)
+        for data in stream:
             kind, detail, cpu = guarded(fn, data, budget)
             n += 1
             if cpu > res['max_cpu']:
@@ -600,16 +614,19 @@ def walker_inputs(rng, kind, thorough):
 def correspondence(ctx):
     """returns (n cases, mismatches, samples)"""
     cases = []     # (label, shape, input bytes, model input list, impl outcome)
+    signal.signal(signal.SIGPROF, _on_alarm)
     for label, shape, impl, conv, kind in walker_table():
+        hung = 0
         for b in walker_inputs(ctx.rng, kind, ctx.thorough):
             mi = conv(b)
             if mi is None:
                 continue
-            try:
-                k = impl(b)
-                o = [0, k]
-            except Exception:
-                o = [1]
+            if hung >= 3:
+                break
+            kind, k, _ = guarded(impl, b, 0.5)
+            if kind == 'timeout':
+                hung += 1
+            o = [0, k] if kind == 'value' else ([1] if kind == 'exception' else [2])
             cases.append((label, shape, b, mi, o))
     if not ctx.coq_ok:
         return len(cases), [], []
@@ -618,7 +635,7 @@ def correspondence(ctx):
     for i in range(0, len(cases), per):
         rows = []
         for label, shape, b, mi, o in cases[i:i + per]:
-            exp = 'SL [SN 0; SN %d]' % o[1] if o[0] == 0 else 'SL [SN 1]'
+            exp = 'SL [SN 0; SN %d]' % o[1] if o[0] == 0 else 'SL [SN %d]' % o[0]
             rows.append('(sx_run (%s) [%s], %s)' % (shape, ';'.join(str(x) for x in mi), exp))
         shards.append('Definition sx_run (s : shape) (d : bytes) : sx :=\n'
                       '  match run (body s never) (S (List.length d)) d with\n'
@@ -651,7 +668,7 @@ def build_batches(ctx):
     names = sorted(decoders())
     corpus = harvest_corpus()
     built = constructed_corpus()
-    corpus_all = sorted(set(corpus) | set(built), key=lambda b: (len(b), b))
+    corpus_all = sorted((set(corpus) | set(built)) - {b''}, key=lambda b: (len(b), b))
     batches = []
     info = {'decoders': len(names), 'corpus_from_tests': len(corpus), 'corpus_constructed': len(built)}
     # (1) exhaustive short inputs
@@ -681,38 +698,18 @@ def build_batches(ctx):
     hexes = [c.hex() for c in corpus_all]
     for i in range(0, len(names), 6):
         batches.append([(n, ('list', hexes)) for n in names[i:i + 6]])
-    # (3) mutations: on the decoders that accept the item (decided in the parent, cheap), bounded
-    D = decoders()
-    signal.signal(signal.SIGPROF, _on_alarm)
-    accept = {}
-    for c in corpus_all:
-        acc = []
-        for n in names:
-            if n.startswith('LS-TLV') and n[:11] not in ('LS-TLV-1034', 'LS-TLV-1036', 'LS-TLV-1106', 'LS-TLV-1107',
-                                                         'LS-TLV-1162'):
-                continue
-            kind, v, _ = guarded(D[n], c, 1.0)
-            if kind == 'value' and v is not None and not (isinstance(v, (list, dict, bytes, str, tuple)) and len(v) == 0):
-                if n.startswith('Update.parse') and isinstance(v, dict) and v.get('sub_error'):
-                    continue
-                acc.append(n)
-        accept[c] = acc
-    budget_items = 6000 if ctx.thorough else 700
-    items = [(c, n) for c in corpus_all if len(c) <= (400 if ctx.thorough else 120) for n in accept[c][:6]]
-    rng.shuffle(items)
-    items = items[:budget_items]
-    info['mutated_pairs'] = len(items)
+    # (3) mutations of the valid encodings, on the loop-carrying decoders that ACCEPT the encoding
+    #     (acceptance is decided in the child: the parent never calls a decoder itself)
+    mnames = [n for n in names if loopy(n) or n.startswith(('Update.', 'Open.'))]
+    pairs = [(c, n) for c in corpus_all if len(c) <= (400 if ctx.thorough else 160) for n in mnames]
+    rng.shuffle(pairs)
+    if not ctx.thorough:
+        pairs = pairs[:4000]
+    info['mutation_candidate_pairs'] = len(pairs)
     info['mutation_values_per_octet'] = 256 if ctx.thorough else len(BOUNDARY)
-    grp, cost = [], 0
-    for c, n in items:
-        grp.append((n, ('mut1', c.hex(), None if ctx.thorough else BOUNDARY)))
-        grp.append((n, ('mutlen', c.hex())))
-        cost += len(c)
-        if cost > (1500 if ctx.thorough else 4000):
-            batches.append(grp)
-            grp, cost = [], 0
-    if grp:
-        batches.append(grp)
+    step = 40 if ctx.thorough else 80
+    for i in range(0, len(pairs), step):
+        batches.append([(n, ('mutacc', c.hex(), None if ctx.thorough else BOUNDARY)) for c, n in pairs[i:i + step]])
     # (4) link-state / prefix-SID TLV types x sub-lengths
     tl = ls_tlv_cases(rng, ctx.thorough)
     info['ls_tlv_cases'] = {k: len(v) for k, v in tl.items()}
@@ -763,6 +760,7 @@ def run(ctx):
     # big batches first
     results = run_batches(batches, budget, wall_limit=(780 if ctx.thorough else 75) - (time.time() - t0))
     viol, calls, values, exc, maxcpu, slow = [], 0, 0, {}, 0.0, None
+    mutated = 0
     perdec = {}
     for r in results:
         if r is None or 'dead' in r:
@@ -779,6 +777,7 @@ def run(ctx):
             p = perdec.setdefault(k, [0, 0])
             p[0] += a
             p[1] += b
+        mutated += r.get('mutated', 0)
         for name, hx, cpu in r['timeouts']:
             viol.append({'what': '%s does not finish within the CPU budget (%.1f s, twice) on a %d-octet input'
                                  % (name, budget, len(hx) // 2),
@@ -797,7 +796,7 @@ def run(ctx):
     extra = dict(info)
     extra.update({'oracle_calls': calls, 'calls_returning_a_value': values, 'exception_classes': exc,
                   'cpu_budget_s': budget, 'max_cpu_single_call_s': round(maxcpu, 4), 'slowest_call': slow,
-                  'batches': len(batches), 'correspondence_cases': ncases,
+                  'batches': len(batches), 'correspondence_cases': ncases, 'mutated_pairs_accepted': mutated,
                   'decoders_exercised': len(perdec),
                   'decoders_never_returning_a_value': sorted(k for k, (a, b) in perdec.items() if b == 0)[:40],
                   'loops_in_inventory': 41, 'loops_modelled': 41, 'unmodelled_loops': [],
